@@ -487,10 +487,20 @@ fn transforms<F: Nf>(ctx: &mut Ctx, item: &mut u64, lb: usize, ldense: usize, lm
                 work.push((2, r));
             }
             // inputs shorter than the size (zero-padded by the transform)
-            for (k, len) in [1usize, n / 2, n - 1, n / 3 + 1].into_iter().enumerate() {
-                if len >= 1 && len < n {
-                    work.push((3, (k << 32) | len));
-                }
+            // EVERY length below the size up to n = 32; beyond that lengths around n/2, n/3, n/4, n/5, n/7, n/8
+            // (size/len not a power of two, len not a power of two, one off either side) and a few tiny ones.
+            let mut lens: Vec<usize> = if n <= 32 {
+                (1..n).collect()
+            } else {
+                let mut v = vec![1usize, 2, 3, 5, 6, 7, n / 2, n - 1, n - 2, n / 3 + 1, n / 3, n / 5, n / 7, n / 2 - 1, n / 2 + 1,
+                                 n / 4 - 1, n / 4, n / 4 + 1, n / 8 + 1, 3 * n / 4, 3 * n / 8 + 1];
+                v.sort();
+                v.dedup();
+                v
+            };
+            lens.retain(|l| *l >= 1 && *l < n);
+            for (k, len) in lens.into_iter().enumerate() {
+                work.push((3, (k << 32) | len));
             }
         } else {
             let mut js = if logn <= ldense { vec![0, 1, 2, n / 2 - 1, n / 2, n / 2 + 1, n - 2, n - 1] } else { vec![1, n / 2 + 1, n - 1] };
@@ -536,8 +546,9 @@ fn transforms<F: Nf>(ctx: &mut Ctx, item: &mut u64, lb: usize, ldense: usize, lm
                 3 => {
                     let len = a & 0xffff_ffff;
                     ctx.count("ntt_short_input_cases");
-                    if rng.bool() {
-                        Inp::Unit { j: rng.usize_below(len), c: rand_nonzero::<F>(&mut rng), len }
+                    if rng.chance(1, 4) {
+                        // the LAST coefficient present (a padding step that overwrites it shows up at once)
+                        Inp::Unit { j: if rng.bool() { len - 1 } else { rng.usize_below(len) }, c: rand_nonzero::<F>(&mut rng), len }
                     } else {
                         Inp::Dense { v: rand_vec::<F>(&mut rng, len), gen: label.clone() }
                     }
